@@ -55,13 +55,17 @@ func (Prop) Plan(tier string) []lib.Workload {
 	// every connection has its own watchdog (run.go); the case watchdog only
 	// guards against a wedged harness and is therefore inconclusive, not a verdict
 	const ct = 5 * time.Minute
+	bt := time.Duration(0) // lib default (20 min)
+	if !q {
+		bt = 60 * time.Minute
+	}
 	return []lib.Workload{
-		{Name: "matrix", Cases: 3600, Exhaustive: true, MinNontrivial: 3600, CaseTimeout: ct},
-		{Name: "disturb", Cases: n(500, 2000), MinNontrivial: n(300, 1000), CaseTimeout: ct},
-		{Name: "replay", Cases: n(100, 1500), MinNontrivial: n(50, 400), CaseTimeout: ct},
-		{Name: "cancel", Cases: n(100, 1500), MinNontrivial: n(20, 24), CaseTimeout: ct},
-		{Name: "poolreuse", Cases: n(64, 640), MinNontrivial: n(20, 100), Batches: 8, CaseTimeout: ct},
-		{Name: "concurrent", Cases: n(20, 600), Race: true, MinNontrivial: n(20, 600), Batches: 10, CaseTimeout: ct},
+		{Name: "matrix", Cases: 3600, Exhaustive: true, MinNontrivial: 3600, CaseTimeout: ct, BatchTimeout: bt},
+		{Name: "disturb", Cases: n(500, 2000), MinNontrivial: n(300, 1000), CaseTimeout: ct, BatchTimeout: bt},
+		{Name: "replay", Cases: n(100, 1500), MinNontrivial: n(50, 200), CaseTimeout: ct, BatchTimeout: bt},
+		{Name: "cancel", Cases: n(100, 1500), MinNontrivial: n(20, 24), CaseTimeout: ct, BatchTimeout: bt},
+		{Name: "poolreuse", Cases: n(64, 640), MinNontrivial: n(20, 100), Batches: 8, CaseTimeout: ct, BatchTimeout: bt},
+		{Name: "concurrent", Cases: n(20, 600), Race: true, MinNontrivial: n(20, 600), Batches: n(10, 16), CaseTimeout: ct, BatchTimeout: bt},
 	}
 }
 
